@@ -231,6 +231,7 @@ func runCfg(n *node, f *frame, funcNode, callNode *node) {
 	dbg := n.interp.debugger
 	if dbg == nil {
 		for exec := n.exec; exec != nil && f.runid() == n.interp.runid(); {
+			verifStep(n.interp, f)
 			exec = exec(f)
 		}
 		return
@@ -248,6 +249,7 @@ func runCfg(n *node, f *frame, funcNode, callNode *node) {
 			break
 		}
 
+		verifStep(n.interp, f)
 		exec = exec(f)
 		if exec == nil {
 			break
